@@ -110,13 +110,13 @@ def run_C12(ctx, rep):
 
 def run_C05(ctx, rep):
     lib_rules.check_L1(ctx, rep)
-    gen_driver.run_gen(ctx, rep, ['G1G3', 'USES', 'G5'], floors={'G1': 300, 'G1.lat': 20, 'G1.uses': 800, 'G5': 250})
+    gen_driver.run_gen(ctx, rep, ['G1G3', 'USES', 'G5', 'G14', 'G15'], floors={'G1': 300, 'G1.lat': 20, 'G1.uses': 800, 'G5': 250, 'G15': 15})
 
 
 def run_C02(ctx, rep):
     lib_rules.check_L1(ctx, rep)
     lib_rules.check_L13(ctx, rep)
-    gen_driver.run_gen(ctx, rep, ['G1G3', 'G2G7', 'G5', 'G6', 'G10', 'G12', 'G14'], only_par=True, floors={'G1': 100, 'G6': 15, 'G10': 15, 'G4': 4, 'G14': 100})
+    gen_driver.run_gen(ctx, rep, ['G1G3', 'G2G7', 'G5', 'G6', 'G10', 'G12', 'G14', 'G15'], only_par=True, floors={'G1': 100, 'G6': 15, 'G10': 15, 'G4': 4, 'G14': 100, 'G15': 15})
     gen_driver.run_ser_par_twins(ctx, rep)
 
 
